@@ -60,6 +60,7 @@ def transport_reads(repo: Repo, chk: Check, world: World) -> t.Dict[str, str]:
     'fills its view argument completely or raises'."""
     helpers: t.Dict[str, str] = {}
     REGIONS.clear()
+    INLINE.clear()
     mod = repo.mod("_rpc._client")
     for f in [x for x in repo.funcs.values() if x.mod is mod]:
         for n in body_nodes(f.node):
@@ -97,6 +98,7 @@ def fill_exact(world: World, f: Func, call: ast.Call) -> str:
         return f"{name}({unparse(tgt)}) is not inside a loop: a short read leaves the buffer partly filled"
     loop = loops[-1]
     cert = [c for c in LoopChecker(world, f).all() if c.node is loop]
+    off_name: t.Optional[str] = None
     if isinstance(tgt, ast.Name):
         # shape A: while v: n = recv_into(v); ...; v = v[n:]
         v = tgt.id
@@ -107,8 +109,15 @@ def fill_exact(world: World, f: Func, call: ast.Call) -> str:
     elif isinstance(tgt, ast.Subscript) and isinstance(tgt.value, ast.Name) and isinstance(tgt.slice, ast.Slice) and tgt.slice.upper is None and tgt.slice.step is None and isinstance(tgt.slice.lower, ast.Name):
         # shape B: while off < len(v): n = recv_into(v[off:]); ...; off += n
         v, off = tgt.value.id, tgt.slice.lower.id
+        off_name = off
         t_ = loop.test
-        okt = isinstance(t_, ast.Compare) and len(t_.ops) == 1 and ((isinstance(t_.ops[0], ast.Lt) and unparse(t_.left) == off and prov_text(f, t_.comparators[0], t_) == f"len({v})") or (isinstance(t_.ops[0], ast.Gt) and unparse(t_.comparators[0]) == off and prov_text(f, t_.left, t_) == f"len({v})") or (isinstance(t_.ops[0], ast.NotEq) and {unparse(t_.left), prov_text(f, t_.comparators[0], t_)} == {off, f"len({v})"}))
+        lenv = ast.copy_location(ast.Call(func=ast.Name(id="len", ctx=ast.Load()), args=[ast.Name(id=v, ctx=ast.Load())], keywords=[]), loop.test)
+        want_len = {f"len({v})", prov_text(f, lenv, t_)}
+
+        def is_len(x: ast.expr) -> bool:
+            return unparse(x) in want_len or prov_text(f, x, t_) in want_len
+
+        okt = isinstance(t_, ast.Compare) and len(t_.ops) == 1 and ((isinstance(t_.ops[0], ast.Lt) and unparse(t_.left) == off and is_len(t_.comparators[0])) or (isinstance(t_.ops[0], ast.Gt) and unparse(t_.comparators[0]) == off and is_len(t_.left)) or (isinstance(t_.ops[0], ast.NotEq) and ((unparse(t_.left) == off and is_len(t_.comparators[0])) or (unparse(t_.comparators[0]) == off and is_len(t_.left)))))
         if not okt:
             return f"the loop around {name}({v}[{off}:]) does not run until {off} reaches len({v}) (condition: {unparse(loop.test)})"
         if any(isinstance(n, (ast.Assign, ast.AugAssign)) and v in [unparse(x) for x in (n.targets if isinstance(n, ast.Assign) else [n.target])] for n in ast.walk(loop)):
@@ -138,6 +147,7 @@ def fill_exact(world: World, f: Func, call: ast.Call) -> str:
         if reg is not None:
             REGIONS[f.qual] = reg
             return f"ok:{f.name}({reg[0]}) fills {reg[0]}[{unparse(reg[1]) if reg[1] is not None else ''}:] completely or raises ({cert[0].why})"
+        INLINE.setdefault(f.qual, []).append((loop, v, off_name))
         return "ok:inline read-until-complete loop (EOF raises, exit only when full)"
     REGIONS[f.qual] = (v, None)
     return f"ok:{f.name}({v}) fills {v} completely or raises ({cert[0].why})"
@@ -145,6 +155,32 @@ def fill_exact(world: World, f: Func, call: ast.Call) -> str:
 
 # helper -> (buffer parameter, start offset expression over the helper's parameters or None): the window the helper fills
 REGIONS: t.Dict[str, t.Tuple[str, t.Optional[ast.expr]]] = {}
+# function -> [(loop statement, view name, offset variable or None)]: certified read-until-complete loops written in line
+INLINE: t.Dict[str, t.List[t.Tuple[ast.While, str, t.Optional[str]]]] = {}
+
+
+def _before(f: Func, a: ast.AST, b: ast.AST) -> bool:
+    """a is written before b in the (normalised) function body - inlined statements keep their helper's line numbers."""
+    from .util import source_order
+
+    so = source_order(f)
+    return so.get(id(a), 1 << 30) < so.get(id(b), -1)
+
+
+def inline_windows(f: Func, st: t.Any) -> t.List[t.Tuple[t.Any, ast.AST]]:
+    """Windows (SView) that certified in-line read loops of f have filled on this path, with the loop statement."""
+    out: t.List[t.Tuple[t.Any, ast.AST]] = []
+    for loop, views, offsets in getattr(st, "windows", []):
+        for lp, v, off in INLINE.get(f.qual, []):
+            if lp is not loop:
+                continue
+            if off is None and isinstance(views.get(v), SView):
+                out.append((views[v], loop))
+            elif off is not None and off in offsets:
+                off0, view = offsets[off]
+                if isinstance(view, SView) and isinstance(off0, Lin):
+                    out.append((SView(view.src, view.lo + off0, view.hi), loop))
+    return out
 
 
 def _derived_view(f: Func, v: str, loop: ast.While) -> t.Optional[t.Tuple[str, t.Optional[ast.expr]]]:
@@ -235,6 +271,10 @@ def reassembly(repo: Repo, chk: Check, f: Func, helpers: t.Dict[str, str]) -> No
         harg = hcall.arg(0)
         # ---- header bytes: completely received, exactly the header size
         hok, hwhy = received_exactly(harg, hsz, calls, hcall, helpers)
+        if not hok and isinstance(harg, SBuf):
+            for w, _lp in inline_windows(f, st):
+                if w.src == f"buf#{harg.bid}" and w.lo == 0 and w.hi == harg.size and harg.size == hsz and _before(f, _lp, hcall.node):
+                    hok, hwhy = True, f"header buffer of {hsz!r} bytes filled by the read loop before decoding"
         chk.ob("O1", Site.of(f, hcall.node), hok, hwhy)
         # ---- reply buffer
         resp = pcall.arg(0)
@@ -260,8 +300,11 @@ def reassembly(repo: Repo, chk: Check, f: Func, helpers: t.Dict[str, str]) -> No
             for c in calls:
                 if c.func is not None and c.func.qual in helpers:
                     a = filled_window(c)
-                    if isinstance(a, SView) and a.src == src and c.node.lineno > hcall.node.lineno:
+                    if isinstance(a, SView) and a.src == src and _before(f, hcall.node, c.node):
                         cov.append((a.lo, a.hi, c.func.name))
+            for w, _lp in inline_windows(f, st):
+                if w.src == src:
+                    cov.append((w.lo, w.hi, "read loop"))
             cov.sort(key=lambda x: (x[0].const if x[0].is_const() else 1 << 30))
             cur = Lin(0)
             okc = True
